@@ -363,6 +363,7 @@ func (e *Exec) declareCaptured(fr *Frame, fi *FuncInfo, lit *ast.FuncLit, st *St
 
 // typeInv assumes what the Go type guarantees for a symbolic value.
 func (e *Exec) typeInv(st *State, v Term) {
+	e.refInv(st, v, 0)
 	switch v.T.K {
 	case KSlice:
 		e.assume(st, fmt.Sprintf("(>= %s 0)", e.seqLen(v)))
@@ -478,7 +479,9 @@ func (e *Exec) runSpawns(ct *Contract, fr *Frame) {
 		e.call(sp.call, e.ctx(st, sp.fr), 0)
 		e.safety = savedSafety
 		e.inSpawn = false
-		e.checkFrameAgainst(ct.SpawnMod, entry, []*State{st}, sp.fr, fmt.Sprintf("spawn%d-frame", i+1), sp.pos)
+		if e.mode == "seq" {
+			e.checkFrameAgainst(ct.SpawnMod, entry, []*State{st}, sp.fr, fmt.Sprintf("spawn%d-frame", i+1), sp.pos)
+		}
 	}
 }
 
@@ -626,4 +629,23 @@ func shortKey(k string) string {
 		return rest
 	}
 	return k
+}
+
+// refInv: a reference value is nil or an allocated object of its kind (Go memory safety); struct values carry the
+// same fact for their reference-typed fields.
+func (e *Exec) refInv(st *State, v Term, depth int) {
+	switch v.T.K {
+	case KRef, KMap:
+		al := e.get(st, "$alloc", &Type{K: KGMap, Key: tInt, Elem: tBool})
+		e.assume(st, fmt.Sprintf("(or (= %s 0) (and (select %s %s) (= (rtype %s) %d)))", v.S, al.S, v.S, v.S, e.rtypeTag(refKind(v.T))))
+	case KStruct:
+		if depth > 1 {
+			return
+		}
+		for _, f := range e.fieldsOf(v.T) {
+			if f.Type.K == KRef || f.Type.K == KMap || f.Type.K == KStruct {
+				e.refInv(st, Term{fmt.Sprintf("(%s!%s %s)", e.Sort(v.T), f.Name, v.S), f.Type}, depth+1)
+			}
+		}
+	}
 }
